@@ -4,7 +4,6 @@
 package svc
 
 import (
-	"strconv"
 	"context"
 	"errors"
 	"fmt"
@@ -13,6 +12,7 @@ import (
 	"os"
 	"path/filepath"
 	"sort"
+	"strconv"
 	"strings"
 	"sync"
 	"sync/atomic"
@@ -853,7 +853,6 @@ func ViewDigest(v *manager.View, withTags bool) (string, error) {
 }
 
 var _ = mc.Fatal
-
 
 const storedTimeText = "2020-01-01 1200+2500ms"
 
